@@ -349,3 +349,46 @@ func VerifC02_Range() {
 	}
 	vReach("expanded")
 }
+
+// Int list elements as ANY text: a text that Go's decimal conversion accepts is
+// stored as exactly that number, everything else (leading-zero forms read in
+// another base, prefixes, underscores, junk) is an error when the value is
+// mandatory or attached.
+func VerifC02_IntTexts() {
+	mode := vInt("mode", 0, 2)
+	attached := vBool("attached")
+	vBound("digits", 12)
+	v := vString("v")
+	vAssume(v != "")
+	vAssume(!strings.Contains(v, "..")) // ranges: VerifC02_Range
+	if !attached {
+		vAssume(!isOptionLooking(v))
+	}
+	opt := New()
+	setMode(opt, mode)
+	pi := opt.IntSlice("ints", 1, 2)
+	opt.NewCommand("cmd", "")
+	vPhase("run")
+	var args []string
+	if attached {
+		args = []string{"--ints=" + v}
+	} else {
+		args = []string{"--ints", v}
+	}
+	remaining, err := opt.Parse(args)
+	vObserve("err", err != nil)
+	vObserve("values", *pi)
+	want, cerr := strconv.Atoi(v)
+	if cerr == nil {
+		vAssert("int-text/no-error", err == nil)
+		vAssert("int-text/one-element", len(*pi) == 1)
+		if len(*pi) == 1 {
+			vAssert("int-text/decimal-value", (*pi)[0] == want)
+		}
+		vAssert("int-text/remaining-empty", len(remaining) == 0)
+		vReach("stored")
+	} else {
+		vAssert("int-text/invalid-error", err != nil)
+		vReach("rejected")
+	}
+}
